@@ -177,7 +177,7 @@ class GMRF(Distribution):
         if not callable(self.mean): # for prior
             return -(self.prec*self._prec_op) @ (x-self.mean)
         else:
-            NotImplementedError("Gradient not implemented for mean {}".format(type(self.mean)))
+            raise NotImplementedError("Gradient not implemented for mean {}".format(type(self.mean)))
 
     def _sample(self, N=1, rng=None):
         if (self._bc_type == 'zero'):
